@@ -308,8 +308,9 @@ class Impl:
             full = os.path.join(sfbase, s_) if s_ else sfbase
             if relto is None:
                 return full
-            # keep the raw spelling (dot segments) where it does not leave the tree
-            return os.path.relpath(os.path.normpath(full), relto)
+            # (the tool resolves a relative -sf of `create` against the working directory and a relative -sf of
+            # `verify` against the ROOT path)
+            return os.path.relpath(os.path.normpath(full), absat if k == "verify" else relto)
         if k == "create":
             args = [at]
             for h in op.get("h", []):
